@@ -619,6 +619,7 @@ func (w *Writer) WriteMessages(ctx context.Context, msgs ...Message) error {
 		return io.ErrClosedPipe
 	}
 	defer w.leave()
+	defer verifTrace("w.leave", w) // runs before w.leave()
 
 	if len(msgs) == 0 {
 		return nil
